@@ -6,7 +6,7 @@ Mirrors `ir/src/ir_expressions.rs` (`Expression`), `ir/src/ir_statements.rs` (`S
 and `ir/src/ir_types.rs` (`Constant`) for the constructors listed below.  `Vec<Expression>` is the mutual
 inductive `Exprs` (a plain list written out so that structural recursion and induction go through).
 Not modelled (answered `unsupported` by the driver): vectors/matrices/structs/arrays, swizzles, member access,
-constructors, `SizeOf`, intrinsic functions, method calls, `switch`/case labels, `discard`, 64-bit and 16-bit constants,
+constructors, `SizeOf`, intrinsic functions, method calls, `discard`, 64-bit and 16-bit constants,
 strings, enums.
 -/
 namespace RsslVerif.Model.Ir
@@ -86,6 +86,9 @@ inductive Stmt where
   | break
   | continue
   | ret (e : Option Expr)
+  | switch (ty : Ty) (c : Expr) (b : Stmts)   -- Switch(cond, block); `ty` = cond.get_type() (resolved, as every typed node)
+  | caseLabel (c : Const)                     -- CaseLabel(Constant): a statement of its own in the IR
+  | defaultLabel
   deriving Repr, Inhabited
 inductive Stmts where
   | nil
